@@ -3,6 +3,7 @@ import RQ.Driver.DistEngine
 import RQ.Driver.PathEngine
 import RQ.Driver.ParseEngine
 import RQ.Driver.SeriesEngine
+import RQ.Driver.PushEngine
 open RQ
 
 def step (line : String) : String :=
@@ -13,6 +14,7 @@ def step (line : String) : String :=
   | some "P" => PathEngine.step fields
   | some "U" => ParseEngine.step fields
   | some "S" => SeriesEngine.step fields
+  | some "W" => PushEngine.step fields
   | some "T" => ApplyEngine.stepT fields
   | _ => "bad-op"
 
